@@ -66,7 +66,7 @@ def rules_of(fx, rep, pid, rules, rule_id, why, tier='quick'):
 # (importing property) -> [(exporting property, rules (set or id prefix), rule id here, why the dependence is real)]
 LAYERS = {
     'C03': [('C19', {'R19.2'}, 'E9', 'the bytes of a frame reach the peer through WriteHalf::write: a transport that hands a prefix to the kernel twice emits other bytes than the encoding')],
-    'C14': [('C03', {'E1', 'E2', 'E2b', 'E6', 'E7'}, 'R14.12', 'GetInterfaceDescription carries the rendered text as a JSON string through the built-in serializer: an escaping or '
+    'C14': [('C03', {'E1', 'E2', 'E2b', 'E6'}, 'R14.12', 'GetInterfaceDescription carries the rendered text as a JSON string through the built-in serializer: an escaping or '
              'streaming defect there changes the text the client parses')],
     'C15': [('C03', {'E1', 'E2', 'E2b', 'E3', 'E4', 'E5'}, 'R15.6', 'the values generated code sends are encoded by the built-in serializer: declared strings / numbers / keys must arrive as such')],
     'C17': [('C03', {'E6'}, 'R17.6', 'the only signal that makes the write buffer grow is BufferTooSmall from the slice writer: raised early (an over-estimate) it grows the buffer '
